@@ -54,10 +54,10 @@ func collectSlots(v any, depth int, out *[]slot) {
 }
 
 // HostileKeys are the names used by the rename edit.
-var HostileKeys = []string{"a.a", "x.x", "", "a.b", "default", "example", "x-ext", "$ref", "items", "properties", "0", "é", "a b", "paths", "allOf"}
+var HostileKeys = []string{"a.a", "x.x", "", "a.b", "default", "example", "x-ext", "$ref", "items", "properties", "0", "é", "a b", "paths", "allOf", "X-Internal-Id", "x", "X-", "xx-y"}
 
 // MutateKinds lists the structural edits of Mutate.
-var MutateKinds = []string{"delete", "retype", "null", "rename", "transplant", "duplicate", "retarget-ref", "ref-with-sibling", "hostile-name", "string-case", "blank-string", "plant-value", "self-ref-definition", "respell-duplicate-number"}
+var MutateKinds = []string{"delete", "retype", "null", "rename", "transplant", "duplicate", "retarget-ref", "ref-with-sibling", "hostile-name", "string-case", "blank-string", "plant-value", "self-ref-definition", "respell-duplicate-number", "key-case", "mixed-duplicate"}
 
 // Mutate applies one structural edit to a decoded document (in place) and returns
 // the kind of edit and the depth at which it landed (0 = a top-level member); ok is
@@ -137,6 +137,61 @@ func Mutate(t *rapid.T, doc map[string]any) (kind string, depth int, ok bool) {
 		}
 		c.set(up)
 		return kind, c.deep, true
+	case "key-case":
+		// the same member name in another case: names of the Swagger schema (and its ^x- pattern) are case-sensitive
+		var keySlots []slot
+		for _, c := range slots {
+			if c.obj != nil && (strings.ToUpper(c.key) != c.key || strings.ToLower(c.key) != c.key) {
+				keySlots = append(keySlots, c)
+			}
+		}
+		if len(keySlots) == 0 {
+			return kind, 0, false
+		}
+		c := PickUniform(t, keySlots, "keyslot")
+		nk := strings.ToUpper(c.key[:1]) + c.key[1:]
+		if nk == c.key || rapid.Bool().Draw(t, "allupper") {
+			nk = strings.ToUpper(c.key)
+		}
+		if nk == c.key {
+			nk = strings.ToLower(c.key)
+		}
+		if _, exists := c.obj[nk]; exists {
+			return kind, c.deep, false
+		}
+		c.obj[nk] = c.obj[c.key]
+		delete(c.obj, c.key)
+		return kind, c.deep, true
+	case "mixed-duplicate":
+		// an array gets a value of another type in second position and a copy of its first element at the end:
+		// [a, b] -> [a, 7, b, a] (an enum, which must hold unique items, now has a duplicate across a change of type)
+		var arrSlots, enumSlots []slot
+		for _, c := range slots {
+			if a, isArr := c.get().([]any); isArr && len(a) > 0 {
+				arrSlots = append(arrSlots, c)
+				if c.obj != nil && c.key == "enum" {
+					enumSlots = append(enumSlots, c)
+				}
+			}
+		}
+		if len(arrSlots) == 0 {
+			return kind, 0, false
+		}
+		from := arrSlots
+		if len(enumSlots) > 0 && UniformIndex(t, 4, "preferenum") != 0 {
+			from = enumSlots
+		}
+		c := PickUniform(t, from, "mixedarr")
+		a := c.get().([]any)
+		var other any = Number(7)
+		if _, isNum := a[0].(json.Number); isNum {
+			other = "seven"
+		}
+		out := []any{a[0], other}
+		out = append(out, a[1:]...)
+		out = append(out, Clone(a[0]))
+		c.set(out)
+		return kind, c.deep, true
 	case "plant-value":
 		// plant a default / example (any JSON value, nulls included) on something that looks like a schema, parameter, header or items object
 		var typed []slot
@@ -179,6 +234,14 @@ func Mutate(t *rapid.T, doc map[string]any) (kind string, depth int, ok bool) {
 			v = map[string]any{Name(t): nil, "items": Scalar(t)}
 		default:
 			v = Value(t, 6)
+		}
+		if items, hasItems := m["items"].(map[string]any); hasItems && rapid.Bool().Draw(t, "nullableitems") {
+			// items that admit null (the go-openapi reading of "nullable"/"x-nullable"), below a value that may hold nulls
+			items["nullable"] = true
+			items["x-nullable"] = true
+			if rapid.Bool().Draw(t, "nullinarray") {
+				v = []any{nil, Scalar(t)}
+			}
 		}
 		m[rapid.SampledFrom([]string{"default", "default", "example"}).Draw(t, "plantedkey")] = v
 		return kind, c.deep + 1, true
